@@ -1,6 +1,7 @@
 package sym
 
 import (
+	"fmt"
 	"go/types"
 	"strings"
 )
@@ -152,6 +153,29 @@ func (e *Engine) EnableStub(name, kind string) {
 			addr := cl.F[0].(*Term)
 			if !addr.Const {
 				panic(unsupported("sock.Client.Request with symbolic address"))
+			}
+			// a listener bound through the net.Listen model answers through the registered handler
+			gk := fmt.Sprintf("sockreq:%d:%d", c.Th.ID, len(c.Th.Frames))
+			if _, pending := c.St.Ghost[gk]; pending {
+				body := c.St.Ghost[gk+":ret"]
+				delete(c.St.Ghost, gk)
+				delete(c.St.Ghost, gk+":ret")
+				return c.Return(Tuple{body, Iface{}})
+			}
+			if _, listening := c.St.Ghost["listening:"+addr.S]; listening {
+				if h, ok := c.St.Ghost["sockhandler:"+addr.S]; ok {
+					c.St.Events = append(c.St.Events, Event{Kind: "sock-request", Args: []Value{addr, c.Args[1], c.Args[2]}, Thr: c.Th.ID})
+					c.St.Ghost[gk] = True
+					c.Retry()
+					n := len(c.Th.Frames)
+					if succ := c.E.invoke(c.St, c.Th, h.(*Closure), []Value{c.Args[1], c.Args[2]}, nil, c.Instr, false); succ != nil {
+						panic(unsupported("socket handler is a forking intrinsic"))
+					}
+					if len(c.Th.Frames) > n {
+						c.Th.top().OnRet = gk + ":ret"
+					}
+					return nil
+				}
 			}
 			stv, ok := c.St.Ghost["sock:"+addr.S]
 			c.St.Events = append(c.St.Events, Event{Kind: "sock-request", Args: []Value{addr, c.Args[1], c.Args[2]}, Thr: c.Th.ID})
